@@ -141,18 +141,18 @@ def natsOf : List Num → List Nat
 
 /-- `_parse_body` (L158-186): returns ballots, the withdrawn set (as the list of numbers added to it) and the
     unread rest of the lines -/
-def parseBody : List Line → RawBallots → List Rat → Bool → Except Err (RawBallots × List Rat × List Line)
+def parseBody (oneplus : Bool) : List Line → RawBallots → List Rat → Bool → Except Err (RawBallots × List Rat × List Line)
   | [], _, _, _ => throw Err.parseError                                 -- L185: EOF before terminator
   | l :: rest, ballots, withdrawn, seen => do
       let result ← parseNumline true l
       match result with
-      | [] => parseBody rest ballots withdrawn seen                      -- L166-167
+      | [] => parseBody oneplus rest ballots withdrawn seen              -- L166-167
       | first :: more =>
         if more.isEmpty && first.val = 0 then                            -- L168: result == [0]
           pure (ballots, withdrawn, rest)
         else if first.val < 0 then                                       -- L171-176
           if seen then throw Err.parseError
-          else parseBody rest ballots (withdrawn ++ result.map (fun n => -n.val)) seen
+          else parseBody oneplus rest ballots (withdrawn ++ result.map (fun n => -n.val)) seen
         else                                                             -- L177-184, `_parse_ballot` L234-243
           match result.getLast? with
           | some last =>
@@ -161,7 +161,9 @@ def parseBody : List Line → RawBallots → List Rat → Bool → Except Err (R
               let body := result.dropLast
               match body with
               | [] => throw Err.parseError         -- unreachable: a single 0 is the terminator, a single non-zero fails above
-              | w :: idx => parseBody rest (addBallot ballots (natsOf idx) w.val) withdrawn true
+              | w :: idx =>
+                  if oneplus && decide (w.val < 1) then throw (Err.other "ValueError")     -- L183-184 `oneplus_weights`
+                  else parseBody oneplus rest (addBallot ballots (natsOf idx) w.val) withdrawn true
           | none => throw Err.parseError           -- unreachable
 
 /-- the line loop of `_parse_strings` (L192-203) -/
@@ -211,17 +213,20 @@ def deindexAll : RawBallots → List (List Nat × Rat) → List (List Nat × Rat
 def deindex (n : Nat) (bs : RawBallots) : Except Err (List (List Nat × Rat)) :=
   if allInRange n bs then pure (deindexAll bs []) else throw Err.parseError
 
-/-- `load_lines` (L91-112) with `oneplus_weights=False` -/
-def loadBlt : List Line → Except Err (Doc Rat)
+/-- `load_lines` (L91-112) -/
+def loadBltWith (oneplus : Bool) : List Line → Except Err (Doc Rat)
   | [] => throw Err.parseError                                          -- L96-97 empty file
   | h :: rest => do
       let (nCands, nSeats) ← parseHeader h
-      let (ballots, withdrawn, rest') ← parseBody rest [] [] false
+      let (ballots, withdrawn, rest') ← parseBody oneplus rest [] [] false
       let (names?, title) ← parseStrings rest' nCands
       let names := names?.getD (numericCandidates nCands)
       let cands := formCandidates names withdrawn
       let trueBallots ← deindex cands.length ballots
       pure { nSeats := nSeats, cands := cands, ballots := trueBallots, title := title }
+
+/-- `load_lines` with the default `oneplus_weights=False` -/
+def loadBlt (ls : List Line) : Except Err (Doc Rat) := loadBltWith false ls
 
 /-! ### well-formedness of a document handed to the writer -/
 
